@@ -93,6 +93,11 @@ def check(ix, rep):
                 else:
                     rep.ok('R-ORDERFREE', f.module.rel, sym, dparam, 'data set consumed as (name, value) pairs only', f.node.lineno)
     rep.floor('data-entry functions', nfun, 8)
+    # pastify() is part of "well-formed use": the horizon and the pastifier handlers of supported operators compute, they do not refuse under a condition
+    from sa.props import c03 as _c03x
+    _hc = ix.find_class('rtamt.pastifier.stl.horizon', 'StlHorizon')
+    _pc = ix.find_class('rtamt.pastifier.stl.pastifier', 'StlPastifier')
+    rep.floor('horizon + pastifier dispatch cells', _c03x.exh_visitor(ix, rep, _hc, 'StlHorizon') + _c03x.exh_visitor(ix, rep, _pc, 'StlPastifier'), 76)
 
     # ---- partiality: a total reference operator must not raise on some values --------------------------------
     nops = 0
